@@ -17,7 +17,7 @@ RULE = ("a case is a typed list or dict field (item/key/value families with conc
         "contents, order, length, return value and result types are compared after every step; copies, + and += "
         "results must stay typed (they must reject an invalid item); non-trivial = >= 2 operations compared with "
         ">= 1 mutation; distinct = distinct (field, history)")
-REQUIRED = ("ops_compared", "list_ops_compared", "dict_ops_compared", "typed_result_probes", "op:setslice", "op:ior",
+REQUIRED = ("config_item_lists", "ops_compared", "list_ops_compared", "dict_ops_compared", "typed_result_probes", "op:setslice", "op:ior",
             "op:setdefault", "op:update", "op:extend", "op:iadd", "iter:iter", "iter:proxy_other", "iter:mapping")
 ASSUMPTIONS = ["operations the builtin rejects are skipped; operations with an argument the model labels invalid "
                "must raise and are followed by a resynchronisation of the model (partial application of multi-element "
@@ -34,6 +34,12 @@ def _mkfield(rng, fam):
 
 
 def _vals(rng, f, n, bad=0.0):
+    if f.get("kind") in ("schema", "ctype"):
+        out = []
+        for _ in range(n):
+            t = gen.tree_for(rng, f, None, valid=rng.random() >= bad, partial=0.3)
+            out.append(t if rng.random() < 0.95 else rng.choice([5, "x", None]))
+        return out
     out = []
     for _ in range(n):
         want = "invalid" if rng.random() < bad else "valid"
@@ -60,12 +66,23 @@ def generate(rng, ctx):
     nops = rng.randrange(1, maxops + 1)
     bad = rng.choice([0.0, 0.0, 0.1, 0.25])
     if rng.random() < 0.5:
-        item = _mkfield(rng, rng.choice(ITEM_FAMS))
+        cfg_items = rng.random() < 0.2
+        if cfg_items:
+            sub = {"kind": "schema", "key": "", "fields": []}
+            for k in gen.pick_keys(rng, rng.choice([1, 2, 3])):
+                fld = _mkfield(rng, rng.choice(["str", "int", "bool", "float", "host"]))
+                fld["key"] = k
+                if rng.random() < 0.25:
+                    fld["params"]["required"] = True
+                sub["fields"].append(fld)
+            item = sub if rng.random() < 0.5 else {"kind": "ctype", "key": "", "name": "CI", "schema": sub}
+        else:
+            item = _mkfield(rng, rng.choice(ITEM_FAMS))
         f = {"kind": "field", "key": "c", "family": "list", "params": {}, "item": item}
-        kinds = ["list", "tuple", "iter", "gen", "proxy_same", "proxy_other", "list", "iter"]
-        if item["family"] in ("int", "float", "port", "bool"):
+        kinds = ["list", "tuple", "iter", "gen", "proxy_same", "list", "iter"] + ([] if cfg_items else ["proxy_other"])
+        if item.get("family") in ("int", "float", "port", "bool"):
             kinds.append("range")
-        if item["family"] == "str":
+        if item.get("family") == "str":
             kinds.append("str")
         ops = []
         for _ in range(nops):
@@ -73,6 +90,8 @@ def generate(rng, ctx):
                                   (3, "iadd"), (2, "add"), (1, "mul"), (1, "imul"), (2, "copy"), (2, "pop"), (1, "remove"),
                                   (1, "delitem"), (1, "delslice"), (1, "sort"), (1, "reverse"), (0.5, "clear"),
                                   (2, "query")])
+            if cfg_items and name in ("remove", "sort", "imul", "mul", "query"):
+                name = "append"
             op = {"op": name}
             if name in ("append", "insert", "setitem", "remove"):
                 op["x"] = _vals(rng, item, 1, bad)[0]
@@ -126,6 +145,8 @@ def _loose_field(node):
     the target field must validate and normalise again."""
     if node is None:
         return None
+    if node.get("kind") in ("schema", "ctype"):
+        return copy.deepcopy(node)
     fam = node["family"]
     if fam in ("str", "loglevel", "ipv4", "net", "host", "url"):
         return {"kind": "field", "family": "str", "params": {}}
@@ -154,6 +175,10 @@ class Skip(Exception):
 def _norm_item(f, x):
     if f is None:
         return True, x
+    if f.get("kind") in ("schema", "ctype"):
+        if not isinstance(x, dict):
+            return False, None
+        return model.accepts_tree(f, x)
     return model.accepts(f, x)
 
 
@@ -187,6 +212,8 @@ def run(case, ctx, res):
     proxy = cfg.c
     if proxy is None:
         return
+    if is_list and f["item"].get("kind") in ("schema", "ctype"):
+        res.count("config_item_lists")
     d = _cmp(ref, proxy)
     if d:
         res.viol("M-differential", "init", "initial content differs: %s" % d)
@@ -253,6 +280,9 @@ def _cmp(ref, proxy):
     if isinstance(ref, list):
         if not isinstance(proxy, list):
             return "value is a %s" % type(proxy).__name__
+        if any(isinstance(x, dict) for x in ref):
+            d = model.match(list(ref), list(got))
+            return ("builtin has %r, proxy has %r (%s)" % (ref, list(got), d)) if d else None
         if not eqstar(ref, list(got)):
             return "builtin has %r, proxy has %r" % (ref, list(got))
         if len(proxy) != len(ref):
